@@ -55,7 +55,87 @@ def has_collapsing_member(api, t, v):
     return expected_readback(api, t, v) != rt.normalize(api, t, v)
 
 
+# ---------------------------------------------------------------------------
+# re-specification history: two revisions of a spec generated one after the other into the SAME package name in one process (the first
+# unloaded before the second is imported), values round-tripped under each through the package's own serializer module and through the
+# library's long-lived one.  The oracle is unchanged (round trip); what is explored is what the first revision leaves behind.
+
+REV_FIELDS = {
+    'base': [('id', 'UInt64', 7), ('label', 'String', 'bolt')],
+    'plus-optional': [('id', 'UInt64', 7), ('label', 'String', 'bolt'), ('note', 'String?', 'metric')],
+    'plus-defaulted': [('id', 'UInt64', 7), ('label', 'String', 'bolt'), ('count', 'Int32 = 1', 12)],
+    'retyped': [('id', 'String', 'seven'), ('label', 'List(String)', ['a', 'b'])],
+    'fewer': [('label', 'String', 'bolt')],
+    'reordered': [('label', 'String', 'bolt'), ('id', 'UInt64', 7)],
+}
+REV_PKG = 'respecpkg'
+
+
+def rev_spec(rev):
+    lines = ['namespace inventory', '', 'struct Item']
+    lines += ['    %s %s' % (n, t) for n, t, _ in REV_FIELDS[rev]]
+    lines += ['', 'struct Crate extends Item', '    depth Int32?', '', 'union Entry', '    item Item', '    crate Crate', '    missing', '']
+    return [('inventory.stone', '\n'.join(lines))]
+
+
+def respec_items():
+    return [('respec', a, b) for a in REV_FIELDS for b in REV_FIELDS if a != b]
+
+
+def respec_task(item):
+    _, first, second = item
+    import stone.backends.python_rsrc.stone_serializers as lib_ss
+    out_v = []
+    oc = collections.Counter()
+    n = 0
+    for rev in (first, second):
+        specs = rev_spec(rev)
+        out = impl.compile_specs(specs)
+        if out.kind != 'ok':
+            raise explore.InternalError('revision %s is not accepted: %s' % (rev, out.brief()))
+        pkg, fail = impl.build_python_package(out.api, pkg=REV_PKG)
+        if pkg is None:
+            raise explore.InternalError('revision %s does not generate: %s' % (rev, fail.identity))
+        try:
+            inv = pkg.mod('inventory')
+            kw = {nm: v for nm, _, v in REV_FIELDS[rev]}
+            values = [('Item', inv.Item_validator, inv.Item(**kw)), ('Crate', inv.Crate_validator, inv.Crate(depth=3, **kw)),
+                      ('Entry.item', inv.Entry_validator, inv.Entry.item(inv.Item(**kw))), ('Entry.crate', inv.Entry_validator, inv.Entry.crate(inv.Crate(**kw))),
+                      ('Entry.missing', inv.Entry_validator, inv.Entry.missing)]
+            for ssname, ss in (('package', pkg.ss), ('library', lib_ss)):
+                for vname, val, v in values:
+                    for strict in (True, False):
+                        n += 1
+                        inputs = {'first_revision': first, 'second_revision': second, 'revision_in_use': rev, 'value': vname, 'serializer': ssname, 'strict': strict,
+                                  'specs': rev_spec(first) + rev_spec(second)}
+                        try:
+                            o = ss.json_compat_obj_encode(val, v)
+                            back = ss.json_compat_obj_decode(val, json.loads(json.dumps(o)), strict=strict)
+                            o2 = ss.json_compat_obj_encode(val, back)
+                        except Exception as e:  # noqa
+                            if ssname == 'library' and isinstance(e, (AssertionError, AttributeError, TypeError)) and rev == first:
+                                oc['library-serializer-not-usable'] += 1
+                                continue
+                            out_v.append(viol('respec:%s:%s' % (rtbase.runtime_identity(e, 'roundtrip-raised'), ssname),
+                                              'round trip of %s under revision %s (%s serializer) raised %r%s' % (vname, rev, ssname, e, '' if rev == first else ' [history: revision %s was generated, used and unloaded first]' % first), inputs))
+                            continue
+                        want_keys = None
+                        if vname in ('Item', 'Crate'):
+                            want_keys = sorted([nm for nm, _, _ in REV_FIELDS[rev]] + (['depth'] if vname == 'Crate' else []))
+                        if not (back == v) or back != v or json.dumps(o2, sort_keys=True) != json.dumps(o, sort_keys=True) or (want_keys is not None and sorted(o) != want_keys):
+                            out_v.append(viol('respec:roundtrip-value:%s:%s' % (ssname, 'second-revision' if rev == second else 'first-revision'),
+                                              '%s under revision %s (%s serializer): wire %s, read back %r, re-encoded %s%s' % (
+                                                  vname, rev, ssname, json.dumps(o), back, json.dumps(o2), '' if rev == first else ' [history: revision %s was generated, used and unloaded first]' % first), inputs))
+                        else:
+                            oc['respec-ok:' + ssname] += 1
+        finally:
+            pkg.close()
+    return {'outcome': oc, 'viol': out_v, 'n': n, 'transitions': n}
+
+
 def task(item):
+    if item[0] == 'respec':
+        return respec_task(item)
     if item[0] == 'namecase':
         return rtbase.name_case_task(['roundtrip'])
     if item[0] == 'history':
@@ -152,6 +232,9 @@ def run(tier, seed):
     hist = rtbase.history_items(tier)
     r.bounds['history_pairs'] = len(hist)
     r.run_tasks(task, hist, budget=240, order_base=len(items), fresh=True)
+    resp = respec_items()
+    r.bounds['respecification_pairs'] = len(resp)
+    r.run_tasks(task, resp, budget=240, order_base=len(items) + len(hist), fresh=True)
     r.assumptions = ['values with the catch-all tag selected are not part of the value set (C06 requires decoders to refuse it)',
                      'a nullable plain-struct union member without set fields reads back as the null member (documented)']
     r.finish('every type shape at every position x every boundary value x {strict, lenient} x {object, string} entry points: '
@@ -159,6 +242,12 @@ def run(tier, seed):
 
 
 def replay(rep):
+    if 'first_revision' in rep['inputs']:
+        out = respec_task(('respec', rep['inputs']['first_revision'], rep['inputs']['second_revision']))
+        if out['viol']:
+            print('VIOLATION property=%s replay=replayed' % PROP)
+            return 1
+        return 0
     TIER[0] = 'thorough'
     u = rtbase.universe('thorough')
     shape, pos = rep['inputs']['shape'], rep['inputs']['position']
